@@ -1294,6 +1294,7 @@ Constraint::Constraint(Variable *left, Variable *right, double gap, bool equalit
 : left(left),
   right(right),
   gap(gap),
+  lm(0),
   timeStamp(0),
   active(false),
   equality(equality),
